@@ -19,7 +19,7 @@ Call(c) == /\ Len(calls) < MaxLen
            /\ (c.ev = "Enable" => (voff \/ toff))
            /\ calls' = Append(calls, c)
            /\ tagged' = ((tagged \/ c.ev = "Tag") /\ c.ev # "ClearLog")
-           /\ voff' = IF c.ev = "Disable" /\ c.what = "v" THEN TRUE ELSE IF c.ev = "Enable" /\ c.what \in {"v", "all"} THEN FALSE ELSE voff
+           /\ voff' = IF c.ev = "Disable" /\ c.what \in {"v", "vname"} THEN TRUE ELSE IF c.ev = "Enable" /\ c.what \in {"v", "all"} THEN FALSE ELSE voff
            /\ toff' = IF c.ev = "Disable" /\ c.what = "t" THEN TRUE ELSE IF c.ev = "Enable" /\ c.what \in {"t", "all"} THEN FALSE ELSE toff
 
 Init == calls = <<>> /\ tagged = FALSE /\ voff = FALSE /\ toff = FALSE
@@ -35,5 +35,16 @@ FullMenu ==
   \cup {[ev |-> "Tag"], [ev |-> "ClearLog"], [ev |-> "Retarget", j |-> 0, delta |-> 1]}
   \cup {[ev |-> "Disable", what |-> "v"], [ev |-> "Disable", what |-> "t"], [ev |-> "Enable", what |-> "v"], [ev |-> "Enable", what |-> "all"]}
 
+(* Long histories (simulation): steps that pass TWO one-call flag arguments at once belong to this menu only, so that the       *)
+(* exhaustive enumerations of length <= 4 keep their size.  Behaviours of MaxLen calls are drawn by `tlc -simulate`; only the   *)
+(* complete ones are emitted.  A history-dependent defect of the optimizer (solver memory re-seeded at the wrong moment, a      *)
+(* memo keyed by too little) needs six or seven particular calls in a row: the per-call clauses of Optimizer.tla and the        *)
+(* protocol search of OptProtoTrace.tla see it only when such a history is actually driven.                                     *)
+LongMenu == FullMenu
+  \cup {S(2, TRUE, "vary+target", FALSE), S(1, TRUE, "en_vary+target", FALSE), S(2, FALSE, "en_vary+vary_name", FALSE), S(1, FALSE, "en_vary", FALSE),
+        S(1, TRUE, "en_target", FALSE), S(2, TRUE, "en_target+vary", FALSE)}
+  \cup {[ev |-> "Disable", what |-> "vname"], [ev |-> "Enable", what |-> "t"]}
+
 Emit == Len(calls) = 0 \/ PrintT(ToJson(<<"SEQ", calls>>))
+EmitFull == Len(calls) < MaxLen \/ PrintT(ToJson(<<"SEQ", calls>>))
 =============================================================================
